@@ -282,6 +282,12 @@ def cli_cases(draw):
     t = draw(gen.texel(small=True))
     inp = fasta_input_plain(f)
     m = draw(gen.model_map(inp, t))
+    if draw(st.integers(0, 2)) == 0:
+        # a second (and third) output assembly: whole single-piece scaffolds tagged Haplotig / Contaminant
+        singles = [rows for _pn, rows in m if sum(1 for r in rows if r[0] == "F") == 1]
+        for rows, tag in zip(singles[:2], draw(st.permutations(["Haplotig", "Contaminant"]))):
+            fr = next(r for r in rows if r[0] == "F")
+            fr[5] = sorted((set(fr[5]) - {"Painted"}) | {tag})
     case = {"fasta": f, "t": gen.texel_str(t), "input": inp, "map": m,
             "fasta_buffer": draw(st.sampled_from([None, 1, 7, 50, 199, 200]))}
     stale = draw(st.sampled_from([None, None, None, "equal", "older"]))
